@@ -7,16 +7,31 @@ From RtoscV Require Import Match.PatSpec Match.MatchModel Ports.NameModel Ports.
 Import ListNotations.
 Local Open Scope Z_scope.
 
-(* the key of a name: its path part with every '#N' replaced by '#' *)
-Definition key (l : list NameModel.seg) : list Z :=
-  concat (map (fun s => match s with NameModel.Lit t => t | NameModel.Enum _ => [35] end) l).
+(* the tokens of a name's path part: its literal characters, and one token for
+   every '#N' *)
+Inductive tok := TC (c : Z) | TH.
 
+Definition toks (l : list NameModel.seg) : list tok :=
+  flat_map (fun s => match s with NameModel.Lit t => map TC t | NameModel.Enum _ => [TH] end) l.
 
-Definition skey (q : sport) : list Z := match q with SPort sg _ _ _ => key sg end.
+Definition stoks (q : sport) : list tok := match q with SPort sg _ _ _ => toks sg end.
 
+(* two names CLASH when one could spell a beginning of what the other spells:
+   literal characters must agree, '#N' against '#M' goes on behind both, '#N'
+   against a literal digit counts as a clash (a#4b / a01b), and so does the end
+   of either name (x / xy: "a sibling's name is a prefix of another's") *)
+Fixpoint clashb (a b : list tok) : bool :=
+  match a, b with
+  | [], _ => true
+  | _, [] => true
+  | TC c :: a', TC d :: b' => (c =? d) && clashb a' b'
+  | TH :: a', TH :: b' => clashb a' b'
+  | TH :: _, TC d :: _ => isdigit d
+  | TC c :: _, TH :: _ => isdigit c
+  end.
 
 Definition litcharb (c : Z) : bool :=
-  (0 <? c) && (c <? 127) && negb ((c =? 58) || (c =? 123) || (c =? 42) || (c =? 35)) && negb (isdigit c).
+  (0 <? c) && (c <? 127) && negb ((c =? 58) || (c =? 123) || (c =? 42) || (c =? 35)).
 
 Fixpoint segs_okb (l : list NameModel.seg) : bool :=
   match l with
@@ -24,7 +39,11 @@ Fixpoint segs_okb (l : list NameModel.seg) : bool :=
   | NameModel.Lit s :: r => negb (is_nil s) && forallb litcharb s && segs_okb r
   | NameModel.Enum n :: r =>
       (0 <=? n) && (n <? 1000000000) &&
-      match r with NameModel.Enum _ :: _ => false | _ => true end && segs_okb r
+      match r with
+      | NameModel.Enum _ :: _ => false
+      | NameModel.Lit t :: _ => negb (starts_with_digit t)
+      | [] => true
+      end && segs_okb r
   end.
 
 Definition argsb (a : list Z) : bool :=
@@ -45,22 +64,31 @@ Definition leaf_okb (sg : list NameModel.seg) (a : list Z) : bool :=
 Definition text_okb (t0 : list Z) : bool :=
   negb (is_nil t0) && forallb litcharb t0 && negb (has_char 47 t0).
 
-Definition sub_okb (sg : list NameModel.seg) (a : list Z) : bool :=
-  is_nil a &&
+(* a sub-tree name: one or more components "text/" or "text#N/", each literal
+   segment cut behind its '/' ("a#3/b#2/c/" = a #3 / b #2 / c/) *)
+Fixpoint comps_okb (sg : list NameModel.seg) : bool :=
   match sg with
-  | [NameModel.Lit t] => (last t 0 =? 47) && text_okb (removelast t)
-  | [NameModel.Lit t0; NameModel.Enum n; NameModel.Lit [c]] =>
-      (c =? 47) && text_okb t0 && (0 <=? n) && (n <? 1000000000)
-  | _ => false
+  | [] => true
+  | NameModel.Enum _ :: _ => false
+  | NameModel.Lit t :: r =>
+      match r with
+      | NameModel.Enum n :: NameModel.Lit [c] :: r' =>
+          (c =? 47) && text_okb t && (0 <=? n) && (n <? 1000000000) && comps_okb r'
+      | NameModel.Enum _ :: _ => false
+      | _ => (last t 0 =? 47) && text_okb (removelast t) && comps_okb r
+      end
   end.
 
-Fixpoint keys_freeb (ks : list (list Z)) : bool :=
+Definition sub_okb (sg : list NameModel.seg) (a : list Z) : bool :=
+  is_nil a && negb (is_nil sg) && comps_okb sg.
+
+Fixpoint keys_freeb (ks : list (list tok)) : bool :=
   match ks with
   | [] => true
-  | k :: r => forallb (fun k' => negb (NameModel.prefixb k k') && negb (NameModel.prefixb k' k)) r && keys_freeb r
+  | k :: r => forallb (fun k' => negb (clashb k k')) r && keys_freeb r
   end.
 
-Definition table_okb (l : list sport) : bool := keys_freeb (map skey l).
+Definition table_okb (l : list sport) : bool := keys_freeb (map stoks l).
 
 Fixpoint port_okb (p : sport) : bool :=
   match p with
@@ -70,7 +98,8 @@ Fixpoint port_okb (p : sport) : bool :=
       (fix all (l : list sport) : bool := match l with [] => true | x :: r => port_okb x && all r end) l
   end.
 
-(* names_ok: every name of the documented shape with digit-free literal text,
-   the keys of every table pairwise not prefixes of one another *)
+(* names_ok: every name of the documented shape (literal text may hold digits;
+   the text behind a '#N' does not begin with one), the names of every table
+   pairwise not clashing *)
 Definition names_ok (root : list sport) : bool := table_okb root && forallb port_okb root.
 
